@@ -4,6 +4,7 @@ package main
 
 import (
 	"crypto/sha256"
+	"encoding/hex"
 	"encoding/json"
 	"fmt"
 	"math/big"
@@ -341,6 +342,9 @@ func (e *execEngine) buildTx(n *node, t []string) (pb.Transaction, bool, error) 
 			ibtp.Proof = proofHash(proof)
 		case "none":
 			proof = nil
+		case "false": // the bound rule answers plain false (no error): verdict injected at the proof.Verify boundary
+			proof = []byte("plain-false-" + t[2] + t[3] + t[4])
+			ibtp.Proof = proofHash(proof)
 		case "bad": // hash mismatch
 			proof = []byte("proof-x")
 			ibtp.Proof = proofHash([]byte("other"))
@@ -361,6 +365,53 @@ func (e *execEngine) buildTx(n *node, t []string) (pb.Transaction, bool, error) 
 			args = append(args, arg)
 		}
 		return n.bvmTx(t[1], resolveAddr(t[2]), t[3], args...), true, nil
+	case "raw": // raw signer <to|nil> <payload hex|nil> : a BxhTransaction with arbitrary payload bytes
+		if len(t) != 4 {
+			return nil, false, fmt.Errorf("bad raw")
+		}
+		var to *types.Address
+		if t[2] != "nil" {
+			to = resolveAddr(t[2])
+		}
+		var payload []byte
+		if t[3] == "empty" {
+			payload = []byte{}
+		} else if t[3] != "nil" {
+			b, err := hex.DecodeString(t[3])
+			if err != nil {
+				return nil, false, err
+			}
+			payload = b
+		}
+		a := acct(t[1])
+		return signTx(a, &pb.BxhTransaction{From: a.addr, To: to, Payload: payload, Timestamp: nextTs(), Nonce: n.nextNonce(t[1])}), true, nil
+	case "rawtd": // rawtd signer <to> <type int> <vmtype int> <amount|~> <inner payload hex|nil> : TransactionData with arbitrary fields
+		if len(t) != 7 {
+			return nil, false, fmt.Errorf("bad rawtd")
+		}
+		typ, err1 := strconv.Atoi(t[3])
+		vmt, err2 := strconv.Atoi(t[4])
+		if err1 != nil || err2 != nil {
+			return nil, false, fmt.Errorf("bad rawtd numbers")
+		}
+		amt := t[5]
+		if amt == "~" {
+			amt = ""
+		}
+		var inner []byte
+		if t[6] == "empty" {
+			inner = []byte{}
+		} else if t[6] != "nil" {
+			b, err := hex.DecodeString(t[6])
+			if err != nil {
+				return nil, false, err
+			}
+			inner = b
+		}
+		td := &pb.TransactionData{Type: pb.TransactionData_Type(typ), VmType: pb.TransactionData_VMType(vmt), Amount: amt, Payload: inner}
+		payload, _ := td.Marshal()
+		a := acct(t[1])
+		return signTx(a, &pb.BxhTransaction{From: a.addr, To: resolveAddr(t[2]), Payload: payload, Timestamp: nextTs(), Nonce: n.nextNonce(t[1])}), true, nil
 	}
 	return nil, false, fmt.Errorf("unknown tx kind %s", t[0])
 }
